@@ -324,3 +324,26 @@ def pedersen_invariant(ctx):
             if end is ext:
                 return True
     return False
+
+
+def len_eq_guards(ctx, v):
+    """[(guard row, lenform A, lenform B)] for guards `len(X) == len(Y)` of body v (accept condition), with both sides in length
+    normal form (helper calls looked through)"""
+    from .common import guard_table
+    out = []
+    for r in guard_table(ctx, v):
+        g = r['guard']
+        c = g.cond
+        if c.tag == 'binop' and ((c[1] == 'Ne' and g.reject_when_true()) or (c[1] == 'Eq' and g.reject_when_false())):
+            sides = []
+            for x in (c[2], c[3]):
+                if x.tag == 'call' and x[1] in LEN_CALLS and len(x[2]) == 1:
+                    try:
+                        sides.append(lenform(ctx, x[2][0]))
+                    except Unknown:
+                        sides.append(None)
+                else:
+                    sides.append(None)
+            if sides[0] is not None and sides[1] is not None:
+                out.append((r, sides[0], sides[1]))
+    return out
